@@ -1377,3 +1377,40 @@ Lemma ser_annot name a f : ser annot_lock (annot_body name a) f = run [WAnnot na
 Proof. rewrite run_one. reflexivity. Qed.
 Lemma ser_log p d s msg f : ser log_lock (log_body p d s msg) f = run [WLog p d s msg] f.
 Proof. rewrite run_one. reflexivity. Qed.
+
+(* ---- the annotations file of ANY context directory (subcontexts at every depth) -------------- *)
+Definition annot_body_at (cp : path) (name a : str) : M unit :=
+  c <- read_file (annot_path_at cp) ;; write_file (annot_tmp_at cp) (annot_store c name a) ;;
+  rename_file (annot_tmp_at cp) (annot_path_at cp).
+
+Lemma store_annotation_at_lwrite cp name a :
+  store_annotation_at cp name a = lwrite (annot_lock_at cp) (annot_body_at cp name a).
+Proof. reflexivity. Qed.
+
+Lemma removelast_snoc (cp : path) c : removelast (cp ++ [c]) = cp.
+Proof. apply removelast_last. Qed.
+Lemma snoc_neq (cp : path) c d : c <> d -> path_eqb (cp ++ [c]) (cp ++ [d]) = false.
+Proof. intros H. apply path_eqb_neq. intros E. apply app_inv_head in E. congruence. Qed.
+Lemma snoc_longer (cp : path) d : path_eqb cp (cp ++ [d]) = false.
+Proof.
+  apply path_eqb_neq. intros E. apply (f_equal (@length comp)) in E. rewrite app_length in E. cbn in E. lia.
+Qed.
+Lemma clr_sibling cp c : c <> CAnnotLock -> clr (Slk (annot_lock_at cp)) (cp ++ [c]) = true.
+Proof.
+  intros H. unfold clr, Slk, annot_lock_at. rewrite removelast_snoc, (snoc_neq cp c CAnnotLock H), snoc_longer. reflexivity.
+Qed.
+
+Lemma sim_annot_body_at cp name a : sim (Slk (annot_lock_at cp)) D0 (annot_body_at cp name a).
+Proof.
+  assert (H1 : clr (Slk (annot_lock_at cp)) (annot_path_at cp) = true) by (apply clr_sibling; discriminate).
+  assert (H2 : clr (Slk (annot_lock_at cp)) (annot_tmp_at cp) = true) by (apply clr_sibling; discriminate).
+  unfold annot_body_at. apply sim_bind; [apply sim_read_file; exact H1 | intros c].
+  apply sim_bind; [apply sim_write_file; exact H2 | intros _]. apply sim_rename_file; assumption.
+Qed.
+
+Lemma parent_ok_snoc f (cp : path) c : parent_ok f (cp ++ [c]) = is_dir f cp.
+Proof. unfold parent_ok. destruct (cp ++ [c]) eqn:E; [destruct cp; discriminate|]. rewrite <- E, removelast_snoc. reflexivity. Qed.
+
+(* the state a program leaves / its outcome, as in [run] / [item_res] for workload items *)
+Definition runp (m : M unit) (f : fs) : fs := run_ops (fst (m f)) f.
+Definition resp (m : M unit) (f : fs) : err + unit := snd (m f).
